@@ -61,12 +61,15 @@ def run(c):
         "checks/c02.py import rewrite (\"os\" -> internal/verifshim/vos in an overlay copy of the CURRENT queue.go) and harness/internal/verifshim/vos "
         "(forwards every call to the real file system, keeps a shadow copy with per-file durable length; the shadow is compared with the real directory after every run)",
         "tools/extract spoolskel (go/ast walk printing the ordered os-call skeleton)",
-        "quiescence of a real queue run is detected from the queue's own log messages (loaded N / removed message from disk / read message)",
+        "quiescence of a real queue run is detected from the queue's own log messages (loaded N / removed message from disk / read message); a run is called stuck when neither a "
+        "file-system call, nor a harness event, nor one of those log lines occurred for 25 s (6 s once a stuck run was seen) although that count says a delivery is still owed",
     ]
     return c.finish(
-        rule="random scenarios: 1-3 messages in one spool directory (sequential, simultaneous or staggered transactions), 1-3 recipients, envelope spelled plain / null reverse-path / "
-        "internationalised + SMTPUTF8 / quoted local parts / mixed, 1- or 2-field headers written in several "
-        "pieces, bodies of 2-300 bytes, fate commit / abort after Body / transaction still open, max_tries 1-3, per attempt and recipient ok|temporary|permanent|unclassified "
+        rule="random scenarios: 1-5 messages in one spool directory (sequential, simultaneous or staggered transactions, or sequential with every delivery held back until the last "
+        "transaction ended so that the stop finds a backlog), 1-3 recipients, envelope spelled plain / null reverse-path / "
+        "internationalised + SMTPUTF8 / quoted local parts / mixed, headers with no field, one field, a field with an empty value, or two fields, written in several "
+        "pieces, bodies of 0 (header-only message: the body file exists and is empty), 1, 2-300 bytes, fate commit / abort after Body / transaction still open, max_tries 1-3, "
+        "max_parallelism of the recovery runs 1, 2 or 4 (mostly fewer slots than stored messages), per attempt and recipient ok|temporary|permanent|unclassified "
         "(fault density 0-90%), occasional panic of the delivery goroutine; the REAL queue (queue.go compiled against the recording os shim) runs each scenario to quiescence; "
         "then for EVERY mutating file-system call of the run, in the order the calls really interleaved: the directory as it is before the call, in the middle of the call when it "
         "is a write (1 byte, half, all but one byte, and every piece boundary), each with nothing lost / all un-synced data dropped (/ a random part of each file's un-synced data "
@@ -75,11 +78,16 @@ def run(c):
         "crashed again in the same way (depth 2: thorough tier for all, quick tier for a sample); per message id the whole history is replayed by the Lean model "
         "(call order, attempts, deliveries, reports, clean-up, final files incl. durable lengths and stored retry counters compared); plus hand-made directories "
         "(any subset of the five files, valid/garbage metadata written by the queue's own encoder in its acceptance-time and after-a-failure forms with every envelope spelling, valid/garbage header, "
-        "files deleted between start-up scan and dispatch) to reach every branch of readDiskQueue/openMessage; "
-        "distinct = distinct per-id histories",
+        "files deleted between start-up scan and dispatch; empty and 1-byte body files, headers without fields / with empty fields) to reach every branch of readDiskQueue/openMessage; "
+        "plus hand-made backlogs (`C02 backlog`): 3-5 complete stored messages, max_parallelism 1-2, first attempts of the recovery run failing temporarily, run to quiescence; "
+        "a run that makes no progress at all for 25 s while the queue still owes a delivery is reported (C02/recovery-hang) and abandoned; "
+        "(scenarios with 4-5 messages: a 30% sample of the crash points;) distinct = distinct per-id histories",
         explanation="inductive invariant over a small-step model in which every single file-system call is a step and a crash (any loss of un-synced data, any torn write) is possible in "
         "every state, recovery included to any depth; model tied to queue.go by the regenerated call skeleton (T1) and by exhaustive crash-point enumeration on the real code (T2); "
         "independent Go monitor on the real events (accepted-lost / stored-lost: in EVERY recovery run each pending recipient of a complete stored message is attempted and then delivered, "
-        "reported, or still pending in a loadable .meta; aborted-delivered, foreign-recipient, resent-after-later-attempt, content)",
+        "reported, or still pending in a loadable .meta; recovery-hang; aborted-delivered, foreign-recipient, resent-after-later-attempt, content); "
+        "a spool larger than max_parallelism: SysReachPar (dispatch needs a free delivery slot) is a sub-system of the free product of the ids, never exceeds the bound, and a slot "
+        "holder always has an enabled own step and frees the slot after at most five of them (C02_backlog_*, C02_slot_*); header-only messages: the zero-length write is a stutter step "
+        "and an empty body file is recovered like any other (C02_empty_*)",
         search=search,
     )
